@@ -235,7 +235,10 @@ def stepOutState (r : Run) (l : Loc) (err : Bool) : Run :=
 def threadFinished (d : Dbg) : Dbg :=
   match d.is with
   | none => { d with depth := 0 }
-  | some is => if is.running then d else { d with is := none, depth := 0 }
+  | some is =>
+    -- a state that is running is kept (a step command carries over to the thread's next execution)
+    -- unless it only says "resumed: do not stop again on this line" — that ends with the execution
+    if is.running && is.cmd != .resume then d else { d with is := none, depth := 0 }
 
 /-- one element of the abstract visit trace of a thread -/
 inductive Ev where
